@@ -1,5 +1,6 @@
 SPECIFICATION Spec
 CONSTANTS
   AsWas = FALSE
+  Rep = {}
 POSTCONDITION Accepted
 CHECK_DEADLOCK FALSE
